@@ -26,6 +26,7 @@ type worker struct {
 	id     int
 	in     *interpreter
 	solver *solver
+	cross  *solver // optional second solver re-deciding every assertion query
 	p      *program
 }
 
@@ -53,6 +54,9 @@ type harnessResult struct {
 	Funcs      []string          `json:"functions_encoded"`
 	Unwind     int               `json:"unwind"`
 	Solver     string            `json:"solver"`
+	CrossChecked int             `json:"cross_checked"`
+	CrossUnknown int             `json:"cross_unknown"`
+	CrossSolver  string          `json:"cross_solver,omitempty"`
 	Vectors    []vector          `json:"vectors"`
 	UsesStubs  bool              `json:"uses_stubs"`
 }
@@ -67,6 +71,7 @@ type runResult struct {
 }
 
 var verboseStacks bool
+var crossSolver string
 var stackSeen sync.Map
 
 func seenStack(r string) bool {
@@ -105,6 +110,7 @@ func main() {
 	file := fs.String("file", "", "replay file")
 	verbose := fs.Bool("v", false, "verbose")
 	trace := fs.Bool("trace", false, "trace instructions (replay)")
+	cross := fs.String("cross", "", "second solver (z3-new | cvc5) that re-decides every assertion query")
 	params := fs.String("params", "", "harness parameters k=v,k=v (zzParam)")
 	fs.Parse(os.Args[2:])
 	verboseStacks = *verbose
@@ -181,6 +187,7 @@ func main() {
 				fmt.Fprintf(os.Stderr, "no harness function %s in %s\n", n, *pkg)
 				os.Exit(2)
 			}
+			crossSolver = *cross
 			hr := exploreHarness(p, fn, *workers, *solverKind, *tmo, *maxPaths, *timeLimit, *unwind, *maxSteps, *verbose)
 			res.Harnesses = append(res.Harnesses, hr)
 			fmt.Fprintf(os.Stderr, "%s: paths=%d ends=%v viol=%d queries=%d solver=%.1fs wall=%.1fs %s\n",
@@ -275,6 +282,17 @@ func exploreHarness(p *program, fn *ssa.Function, nw int, solverKind string, tmo
 				return
 			}
 			w := &worker{id: id, in: newInterp(p), solver: s, p: p}
+			if crossSolver != "" {
+				cs, err := newSolver(crossSolver, tmo)
+				if err != nil {
+					mu.Lock()
+					fault = "cross solver start: " + err.Error()
+					mu.Unlock()
+					return
+				}
+				w.cross = cs
+				defer cs.close()
+			}
 			w.in.globals = p.snap.globals
 			w.in.sharedGraph = p.snap.shared
 			w.in.funcsSeen = map[*ssa.Function]bool{}
@@ -318,7 +336,8 @@ func exploreHarness(p *program, fn *ssa.Function, nw int, solverKind string, tmo
 		Reached: ex.reached, AssertQ: ex.asserts, Cuts: ex.cutReasons, Unknowns: ex.unknowns, Truncated: ex.truncated,
 		Samples: ex.samples, Queries: stats.queries, Sat: stats.sat, Unsat: stats.unsat, SolverUnk: stats.unknown,
 		SolverErr: stats.errors, SolverTime: stats.duration.Seconds(), Wall: time.Since(t0).Seconds(), Steps: ex.stepsTotal,
-		Fault: fault, Unwind: unwind, Solver: solverKind, Vectors: ex.vectors, UsesStubs: ex.usesStubs}
+		Fault: fault, Unwind: unwind, Solver: solverKind, Vectors: ex.vectors, UsesStubs: ex.usesStubs,
+		CrossChecked: ex.crossChecked, CrossUnknown: ex.crossUnknown, CrossSolver: crossSolver}
 	for f := range funcs {
 		path := pkgPathOf(f)
 		if strings.HasPrefix(path, modPrefix) && !strings.HasPrefix(f.Name(), "zz") && !strings.HasPrefix(f.Name(), "ZZ_") {
